@@ -118,6 +118,19 @@ def order(rc):
             rc.fail(f, n, "B entry for the i-th parent must be coefficient i+1 of the CPD (0 is the intercept)", construct="B coefficient")
         orient = "parent,child" if b["_ev"] == ev_loop[1] else ("child,parent" if b["_var"] == ev_loop[1] else None)
     if orient is None:
+        # vectorised form: B[[idx of parents], idx[var]] = cpd.mean[1:]  (or the transposed placement)
+        from ..util import deep_resolve as _dr0, single_defs as _sd0
+        for fmt, ori in (("_B[__ROWS, _IDX[_var]] = _c.mean[1:]", "parent,child"), ("_B[_IDX[_var], __ROWS] = _c.mean[1:]", "child,parent")):
+            for n, b in tm.find_all(fn, fmt, {"_IDX": IDX}):
+                rows = _dr0(b["__ROWS"], {k: v for k, v in _sd0(f).items()})
+                br = tm.is_(rows, "[_IDX[_u] for _u in __PS]", {"_IDX": IDX})
+                Bn, orient = b["_B"], ori
+                okp = br is not None and tm.is_(br["__PS"], "_c.evidence", {"_c": b["_c"]}) is not None
+                rc.ob(f"B filled column-wise from {norm(b['_c'])}.mean[1:] with parents taken from `{norm(br['__PS']) if br else norm(rows, 60)}`")
+                if not okp:
+                    rc.fail(f, n, "the coefficient vector `mean[1:]` follows the CPD's own evidence order; pairing it with another parent list (e.g. the graph's get_parents order) puts "
+                            "coefficients on the wrong parents whenever the two orders differ", construct="B coefficient order")
+    if orient is None:
         raise AnalysisError("to_joint_gaussian: cannot read the orientation of the coefficient matrix")
     n, bo = tm.find(fn, "_OM[_IDX[_v], _IDX[_v]] = _c.variance", {"_IDX": IDX})
     if n is None:
